@@ -7,7 +7,7 @@ import re
 import struct
 from typing import Any, Dict, List, Optional, Tuple
 
-from .. import alg, bits, docs, layout
+from .. import alg, bits, docs, layout, packed
 from ..bits import BV, BitEval, Unsupported
 from ..layout import LenEval, Slot, Unknown
 from ..model import AnchorMissing, ClassInfo, NotConst, Repo, attr_chain, norm, stmts_of, walk_no_nested
@@ -649,28 +649,54 @@ def envelope_chunk(repo: Repo, rep, P: str, tables):
     samp, W, R = _sampler(repo)
     env = samp.nested["Envelope"]
     rel = samp.file.rel
-    wfn, rfn = repo.own_method(env, "chunks"), repo.own_method(env, "load_chdt")
+    from .. import inline
+    from ..packed import subst_locals
+    wfn, rfn = inline.normalize(repo, env, repo.own_method(env, "chunks")), inline.normalize(repo, env, repo.own_method(env, "load_chdt"))
     rep.func("rv.modules.sampler.Sampler.Envelope.chunks / load_chdt")
     wcon, rcon = f"{rel}:Sampler.Envelope.chunks", f"{rel}:Sampler.Envelope.load_chdt"
-    # writer: sequence of `data = pack(...)`, `data += b"..."`, `data += pack(...)`
+    # writer: the CHDT payload variable and its pieces: `data = pack(...)`, `data += b"..."`, `data += pack(...)`,
+    # then the points either in a loop `data += pack(F, x, y')` or as `data += b"".join(pack(F, x, y') for x, y in points)`
     parts: List[Tuple[str, int, List[str]]] = []
     loop_part = None
+    dvar = None
+    pl = packed.find_yield(wfn, b"CHDT")
+    if isinstance(pl, ast.Name):
+        dvar = pl.id
+
+    def is_points_piece(v: ast.AST) -> bool:
+        return isinstance(v, ast.Call) and isinstance(v.func, ast.Attribute) and v.func.attr == "join" and v.args \
+            and isinstance(v.args[0], (ast.GeneratorExp, ast.ListComp))
     for st in stmts_of(wfn):
         val = None
-        if isinstance(st, ast.Assign) and norm(st.targets[0]) == "data":
+        if isinstance(st, ast.Assign) and dvar and norm(st.targets[0]) == dvar:
             val = st.value
-        elif isinstance(st, ast.AugAssign) and norm(st.target) == "data" and isinstance(st.op, ast.Add):
+        elif isinstance(st, ast.AugAssign) and dvar and norm(st.target) == dvar and isinstance(st.op, ast.Add):
             val = st.value
         if val is not None:
-            if isinstance(val, ast.Call) and norm(val.func) == "pack":
-                fmt = repo.fold(val.args[0], ci=env)
-                parts.append(("pack", struct.calcsize(fmt), [fmt] + [norm(a) for a in val.args[1:]]))
-            else:
-                try:
-                    b = repo.fold(val, ci=env)
-                    parts.append(("zeros" if set(b) <= {0} else "const", len(b), [repr(b)]))
-                except NotConst:
-                    parts.append(("unknown", -1, [norm(val)]))
+            pieces = []
+
+            def split(v):
+                if isinstance(v, ast.BinOp) and isinstance(v.op, ast.Add):
+                    split(v.left)
+                    split(v.right)
+                else:
+                    pieces.append(v)
+            split(val)
+            for v in pieces:
+                if is_points_piece(v):
+                    loop_part = v
+                elif isinstance(v, ast.Call) and norm(v.func) in ("pack", "struct.pack"):
+                    try:
+                        fmt = repo.fold(v.args[0], ci=env)
+                        parts.append(("pack", struct.calcsize(fmt), [fmt] + [norm(a) for a in v.args[1:]]))
+                    except NotConst:
+                        parts.append(("unknown", -1, [norm(v)]))
+                else:
+                    try:
+                        b = repo.fold(v, ci=env)
+                        parts.append(("zeros" if set(b) <= {0} else "const", len(b), [repr(b)]))
+                    except (NotConst, TypeError):
+                        parts.append(("unknown", -1, [norm(v)]))
         if isinstance(st, ast.For):
             loop_part = st
     header = sum(p[1] for p in parts)
@@ -680,14 +706,18 @@ def envelope_chunk(repo: Repo, rep, P: str, tables):
         if isinstance(n, ast.Assign) and isinstance(n.value, ast.Call) and norm(n.value.func) == "unpack" \
                 and isinstance(n.targets[0], ast.Tuple) and len(n.targets[0].elts) > 4:
             unpack_stmt = n
-    if unpack_stmt is None or len([p for p in parts if p[0] == "pack"]) != 2:
+    if unpack_stmt is None or not [p for p in parts if p[0] == "pack"] or any(p[0] == "unknown" for p in parts):
         rep.inconclusive(f"{P}.R3", wcon, "", "envelope header shape not recognised", f"{rel}:{wfn.lineno}")
         return
     rfmt = repo.fold(unpack_stmt.value.args[0], ci=env)
     rsize = struct.calcsize(rfmt)
     sl = unpack_stmt.value.args[1]
-    slice_hi = repo.fold(sl.slice.upper, ci=env) if isinstance(sl, ast.Subscript) and isinstance(sl.slice, ast.Slice) else None
-    slice_lo = repo.fold(sl.slice.lower, ci=env) if isinstance(sl, ast.Subscript) and isinstance(sl.slice, ast.Slice) and sl.slice.lower is not None else 0
+    try:
+        slice_hi = repo.fold(sl.slice.upper, ci=env) if isinstance(sl, ast.Subscript) and isinstance(sl.slice, ast.Slice) and sl.slice.upper is not None else None
+        slice_lo = repo.fold(sl.slice.lower, ci=env) if isinstance(sl, ast.Subscript) and isinstance(sl.slice, ast.Slice) and sl.slice.lower is not None else 0
+    except NotConst:
+        rep.inconclusive(f"{P}.R3", rcon, norm(sl), "header slice bounds not constant", f"{rel}:{unpack_stmt.lineno}")
+        return
     # field-by-field: expand writer parts into (offset, size, field)
     wfields: List[Tuple[int, int, str]] = []
     off = 0
@@ -740,14 +770,30 @@ def envelope_chunk(repo: Repo, rep, P: str, tables):
     # points: writer loop packs "<HH" x, y - range[0]; reader offset base + i*4, y + range[0]
     base = stride = None
     ydelta_r = None
-    for n in walk_no_nested(rfn):
-        if isinstance(n, ast.Assign) and norm(n.targets[0]) == "offset":
-            try:
-                p = alg.to_poly(n.value, lambda e: alg.Poly.sym("i") if isinstance(e, ast.Name) and e.id == "i" else _const_leaf(repo, env, e))
-                base, stride = int(p.const_value()), int(p.coeff_of("i").const_value())
-            except (alg.NotAlgebraic, Exception):
-                pass
-    if base != header or stride != 4:
+    # the slice `chdt[o : o + 4]` of the per-point unpack; o = base + i*stride (assigned in the loop) or the variable of range(base, end, stride)
+    cparam = [a.arg for a in rfn.args.args if a.arg != "self"][0]
+    for lp in [n for n in walk_no_nested(rfn) if isinstance(n, ast.For)]:
+        for c in ast.walk(lp):
+            if isinstance(c, ast.Call) and norm(c.func) in ("unpack", "struct.unpack") and len(c.args) == 2:
+                sl2 = packed.resolve_in_block(c.args[1], lp.body)
+                if isinstance(sl2, ast.Subscript) and isinstance(sl2.slice, ast.Slice) and norm(sl2.value) == cparam and sl2.slice.lower is not None:
+                    lo_e = packed.resolve_in_block(sl2.slice.lower, lp.body)
+                    it = lp.iter
+                    try:
+                        if isinstance(it, ast.Call) and norm(it.func) == "range" and len(it.args) == 3 and isinstance(lp.target, ast.Name) \
+                                and norm(lo_e) == lp.target.id:
+                            base, stride = int(repo.fold(it.args[0], ci=env)), int(repo.fold(it.args[2], ci=env))
+                        elif isinstance(lp.target, ast.Name):
+                            iv = lp.target.id
+                            p = alg.to_poly(lo_e, lambda e: alg.Poly.sym("i") if isinstance(e, ast.Name) and e.id == iv else _const_leaf(repo, env, e))
+                            base, stride = int(p.const_value() if p.is_const() else p.subst("i", alg.Poly.const(0)).const_value()), \
+                                int((p.subst("i", alg.Poly.const(1)) - p.subst("i", alg.Poly.const(0))).const_value())
+                    except (alg.NotAlgebraic, NotConst, Exception):
+                        pass
+    if base is None:
+        ok = False
+        rep.inconclusive(f"{P}.R3", rcon, "", "per-point read offset not recognised", f"{rel}:{rfn.lineno}")
+    elif base != header or stride != 4:
         ok = False
         rep.violation(f"{P}.R3", rcon, f"points read from {base}+i*{stride}", f"the writer's header is {header} bytes and each point 4 bytes: points "
                       f"must be read from {header:#x}+i*4", f"{rel}:{rfn.lineno}")
@@ -764,7 +810,8 @@ def envelope_chunk(repo: Repo, rep, P: str, tables):
     for n in walk_no_nested(rfn):
         if isinstance(n, ast.Assign) and len(n.targets) == 1 and isinstance(n.targets[0], ast.Name):
             rdefs[n.targets[0].id] = n.value
-        if isinstance(n, ast.Call) and norm(n.func) == "points.append" and isinstance(n.args[0], ast.Tuple):
+        if isinstance(n, ast.Call) and isinstance(n.func, ast.Attribute) and n.func.attr == "append" and n.args and isinstance(n.args[0], ast.Tuple) \
+                and len(n.args[0].elts) == 2:
             ry = n.args[0].elts[1]
 
     def leafw(e):
@@ -877,23 +924,19 @@ def chunk_dispatch(repo: Repo, rep, P: str):
     samp, W, R = _sampler(repo)
     rel = samp.file.rel
     inst = instance_classes(repo, samp)
-    lc = repo.own_method(samp, "load_chunk")
-    wf = repo.own_method(samp, "specialized_iff_chunks")
+    from .. import inline
+    lc = inline.normalize(repo, samp, repo.own_method(samp, "load_chunk"))
+    wf = inline.normalize(repo, samp, repo.own_method(samp, "specialized_iff_chunks"))
     rep.func("rv.modules.sampler.Sampler.specialized_iff_chunks / load_chunk")
     # writer: which attributes' .chunks() are yielded
     written = []
     for n in walk_no_nested(wf):
-        if isinstance(n, ast.Call) and isinstance(n.func, ast.Attribute) and n.func.attr == "chunks" and norm(n.func.value).startswith("self."):
-            written.append(norm(n.func.value))
-    # reader: chnm == K -> self.X.load_chdt
-    disp: Dict[str, Any] = {}
-    for n in ast.walk(lc):
-        if isinstance(n, ast.If):
-            for st in n.body:
-                if isinstance(st, ast.Expr) and isinstance(st.value, ast.Call) and isinstance(st.value.func, ast.Attribute) \
-                        and st.value.func.attr == "load_chdt":
-                    disp[norm(st.value.func.value)] = n.test
+        if isinstance(n, ast.YieldFrom) and isinstance(n.value, ast.Call) and isinstance(n.value.func, ast.Attribute) \
+                and n.value.func.attr == "chunks" and norm(n.value.func.value).startswith("self."):
+            written.append(norm(n.value.func.value))
+    from .. import chnm as chnm_mod
     n_ok = 0
+    lcon = f"{rel}:Sampler.load_chunk"
     for attr in written:
         if attr.startswith("self.effect_control_envelopes["):
             continue
@@ -904,21 +947,18 @@ def chunk_dispatch(repo: Repo, rep, P: str):
             k = repo.fold(repo.lookup(cls, "chnm")[2], ci=cls)
         except Exception:
             k = None
-        t = disp.get(attr)
-        good = False
-        if t is not None and isinstance(t, ast.Compare) and isinstance(t.ops[0], ast.Eq):
-            try:
-                good = repo.fold(t.comparators[0], ci=samp) == k
-            except NotConst:
-                good = False
-        if good:
+        if not isinstance(k, int):
+            rep.inconclusive(f"{P}.R3", lcon, attr, "chunk number of the envelope class not constant", f"{rel}:{lc.lineno}")
+            continue
+        tgt, _ = chnm_mod.reader_target(repo, samp, k)
+        if tgt == attr[len("self."):]:
             n_ok += 1
-            rep.ok(f"{P}.R3", f"{rel}:Sampler.load_chunk", f"chnm == {k:#x} → {attr}.load_chdt", "same attribute as written")
+            rep.ok(f"{P}.R3", lcon, f"chnm == {k:#x} → {attr}.load_chdt", "same attribute as written")
         else:
-            rep.violation(f"{P}.R3", f"{rel}:Sampler.load_chunk", f"{attr} written as chunk {k if k is None else hex(k)}; dispatch {norm(t) if t is not None else 'missing'}",
+            rep.violation(f"{P}.R3", lcon, f"{attr} written as chunk {k:#x}; loaded into `{tgt or 'nothing'}`",
                           f"the envelope written from {attr} is not loaded back into {attr}", f"{rel}:{lc.lineno}")
-    # effect control envelopes: constructed with 0x105+k, dispatched by chnm - 0x105
-    init = repo.own_method(samp, "__init__")
+    # effect control envelopes: constructed with 0x105+k, dispatched to the list position they were written from
+    init = inline.normalize(repo, samp, repo.own_method(samp, "__init__"))
     ctor = []
     for n in walk_no_nested(init):
         if isinstance(n, ast.Assign) and norm(n.targets[0]) == "self.effect_control_envelopes" and isinstance(n.value, ast.List):
@@ -928,36 +968,42 @@ def chunk_dispatch(repo: Repo, rep, P: str):
                         ctor.append(repo.fold(e.args[0], ci=samp))
                     except NotConst:
                         ctor.append(None)
-    t = disp.get("self.effect_control_envelopes[chnm - 261]") or disp.get("self.effect_control_envelopes[chnm - 0x105]")
-    key = next((k for k in disp if k.startswith("self.effect_control_envelopes[")), None)
-    good = False
-    if key and ctor:
-        m = re.match(r"self\.effect_control_envelopes\[chnm - (\d+)\]", key)
-        tt = disp[key]
-        if m and isinstance(tt, ast.Compare) and len(tt.ops) == 2:
-            lo = repo.fold(tt.left, ci=samp)
-            hi = repo.fold(tt.comparators[1], ci=samp)
-            base = int(m.group(1))
-            good = ctor == list(range(base, base + len(ctor))) and lo == base and hi == base + len(ctor) - 1
     yielded = [a for a in written if a.startswith("self.effect_control_envelopes[")]
-    if good and len(yielded) == len(ctor):
-        n_ok += len(ctor)
-        rep.ok(f"{P}.R3", f"{rel}:Sampler.load_chunk", f"{key} for {[hex(c) for c in ctor]}", "effect-control envelopes dispatch by index")
+    if not ctor or None in ctor:
+        rep.inconclusive(f"{P}.R3", lcon, "self.effect_control_envelopes = …", "construction of the effect-control envelopes not recognised", f"{rel}:{init.lineno}")
     else:
-        rep.violation(f"{P}.R3", f"{rel}:Sampler.load_chunk", f"constructed {ctor}, dispatch {key}, yielded {len(yielded)}",
-                      "effect-control envelope chunk numbers do not map back to the list positions they were written from", f"{rel}:{lc.lineno}")
+        bad = []
+        for idx, k in enumerate(ctor):
+            tgt, _ = chnm_mod.reader_target(repo, samp, k)
+            if tgt != f"effect_control_envelopes[{idx}]":
+                bad.append((idx, k, tgt))
+        if not bad and len(yielded) == len(ctor):
+            n_ok += len(ctor)
+            rep.ok(f"{P}.R3", lcon, f"effect_control_envelopes[i] for {[hex(c) for c in ctor]}", "effect-control envelopes dispatch by index")
+        else:
+            rep.violation(f"{P}.R3", lcon, f"constructed {[hex(c) for c in ctor]}, yielded {len(yielded)}, mismatches {bad[:2]}",
+                          "effect-control envelope chunk numbers do not map back to the list positions they were written from", f"{rel}:{lc.lineno}")
     rep.count("envelope_dispatches", n_ok, 7)
     # instrument / options / effect
-    src = norm(lc)
-    for need, what in (("chnm == 0", "instrument record"), ("chnm == self.options_chnm", "options"), ("chnm == 266", "effect synth")):
-        if need in src:
-            rep.ok(f"{P}.R3", f"{rel}:Sampler.load_chunk", need, what, nontrivial=False)
+    try:
+        oc = repo.fold(repo.lookup(samp, "options_chnm")[2], ci=samp)
+    except Exception:
+        oc = None
+    for k, want, what in ((0, "instrument", "instrument record"), (oc, "options", "options"), (0x10A, "effect", "effect synth")):
+        if k is None:
+            continue
+        tgt, _ = chnm_mod.reader_target(repo, samp, k)
+        if tgt == want:
+            rep.ok(f"{P}.R3", lcon, f"chnm == {k:#x} → {want}", what, nontrivial=False)
         else:
-            rep.violation(f"{P}.R3", f"{rel}:Sampler.load_chunk", need, f"{what} chunk is no longer dispatched", f"{rel}:{lc.lineno}")
+            rep.violation(f"{P}.R3", lcon, f"chnm == {k:#x} → `{tgt or 'nothing'}`", f"{what} chunk is no longer dispatched", f"{rel}:{lc.lineno}")
     # effect: written as CHNM 0x10a with Synth bytes, loaded through read_sunvox_file
     wsrc = norm(wf)
-    if "b'\\n\\x01\\x00\\x00'" in wsrc and "self.effect.write_to(f)" in wsrc and "self.effect = read_sunvox_file(BytesIO(chdt))" in src:
-        rep.ok(f"{P}.R3", f"{rel}:Sampler.specialized_iff_chunks", "effect: CHNM 0x10a = write_to bytes ↔ read_sunvox_file", "embedded effect round-trips as a synth")
+    reads = [n for n in ast.walk(lc) if isinstance(n, ast.Assign) and norm(n.targets[0]) == "self.effect" and isinstance(n.value, ast.Call)
+             and norm(n.value.func) == "read_sunvox_file"]
+    writes = [n for n in ast.walk(wf) if isinstance(n, ast.Call) and norm(n.func) == "self.effect.write_to"]
+    if writes and reads:
+        rep.ok(f"{P}.R3", f"{rel}:Sampler.specialized_iff_chunks", "effect: write_to bytes ↔ read_sunvox_file", "embedded effect round-trips as a synth")
     else:
         rep.violation(f"{P}.R3", f"{rel}:Sampler.specialized_iff_chunks", "effect chunk", "embedded effect is not written as chunk 0x10a / not loaded through read_sunvox_file",
                       f"{rel}:{wf.lineno}")
